@@ -17,7 +17,7 @@ CONSTANTS Rids,        \* request identifiers
           Outcomes,    \* subset of AllOutcomes
           Options      \* subset of {"unset","Continue","Stop","Undo"}
 
-AllOutcomes == {"success", "successSetsId", "successClearsId", "typedError", "plainError", "panic", "unrouted", "critical"}
+AllOutcomes == {"success", "successSetsId", "successClearsId", "discover", "typedError", "plainError", "panic", "unrouted", "critical"}
 
 VARIABLES st,       \* st[r] \in {"idle","validate","items","done"}
           req,      \* req[r]   the request message descriptor
@@ -38,7 +38,7 @@ Request  == [opt : Options, ver : {"supported", "unsupported"}, count : {"match"
 NoReq == [opt |-> "unset", ver |-> "supported", count |-> "match", items |-> <<>>]
 
 Failed(o)       == o \in {"typedError", "plainError", "panic", "unrouted", "critical"}
-CallsHandler(o) == o \notin {"unrouted", "critical"}
+CallsHandler(o) == o \notin {"unrouted", "critical", "discover"}     \* "discover": the built-in Discover Versions answer, no handler
 Reason(o) == CASE o = "typedError" -> "ItemNotFound"            \* the typed error the scripted handler returns
                [] o = "plainError" -> "GeneralFailure"
                [] o = "panic"      -> "GeneralFailure"
